@@ -490,6 +490,8 @@ class ExprMixin:
                 if m & (m + 1) == 0:  # mask 2^k - 1
                     return VInt(x % (m + 1)) if not z3.is_int_value(z3.simplify(x)) else VInt(z3.simplify(x).as_long() & m)
             raise Unsupported(f"int op {type(op).__name__}")
+        if isinstance(a, VAtom) and isinstance(b, VAtom) and isinstance(op, ast.Add):
+            return VAtom(CAT_ATOM(a.t, b.t))  # concatenation of opaque strings: uninterpreted
         if isinstance(a, VSeqZ) and isinstance(b, VSeqZ) and isinstance(op, ast.Add):
             return VSeqZ(z3.Concat(a.t, b.t))
         if isinstance(a, VStr) and isinstance(b, VStr) and isinstance(op, ast.Add):
@@ -709,7 +711,11 @@ class ExprMixin:
                 l = None if lo is None else z3.simplify(lo).as_long()
                 h = None if hi is None else z3.simplify(hi).as_long()
                 return self.new_list(PyListP(p.items[l:h]))
-            if isinstance(p, (IntListP, RecListP)) and lo is None and hi is None:
+            if isinstance(p, RecListP) and lo is None and hi is None:
+                # a shallow copy of a list of objects: the elements are the same objects; iteration over the copy
+                # writes through to them (the list structure itself is not modified by the loops that use this idiom)
+                return base
+            if isinstance(p, IntListP) and lo is None and hi is None:
                 return self.new_list(p.copy())
         raise Unsupported(f"slice of {base!r}")
 
@@ -884,6 +890,7 @@ class ExprMixin:
         return z3.Bool(f"isnone({x.ref})")
 
 
+CAT_ATOM = z3.Function("CatAtom", z3.IntSort(), z3.IntSort(), z3.IntSort())
 MEM = z3.Function("Mem", z3.IntSort(), z3.IntSort(), z3.BoolSort())
 
 
